@@ -63,15 +63,17 @@ Definition s_call_gen (stream : bool) (v : checkver) (P : kparams) (fc : fconf) 
         {| so_s := {| s_a := a'; s_epos := if recorded then a_pos a' else s_epos s |}; so_o := o; so_refused := false |}
     end.
 
-(* what the wrappers leave in expectedInBuffer.pos: [ko] = the ZSTD_compressStream2 call made on the private copy
-   {X, ., a_pos}, [p'] = where that copy ended *)
+(* what the wrappers leave in expectedInBuffer.pos: [ko] = the ZSTD_compressStream2 call made on the private copy of the
+   recorded buffer, whose position [base] is the caller's (a_pos), or 0 when the recorded buffer is still {NULL,0,0};
+   [p'] = where that copy ended *)
 Definition wrapper_epos (kv : keepver) (s : sstate) (ko : kout CS) : N :=
   let a := s_a s in
   let k1 := ko_k ko in
-  let p' := Z.to_N (Z.of_N (a_pos a) + ko_consumed ko) in
+  let base := if a_null a then 0 else a_pos a in
+  let p' := Z.to_N (Z.of_N base + ko_consumed ko) in
   let e1 := if k_appliedSI k1 then p' else s_epos s in            (* ZSTD_setBufferExpectations on the private copy *)
-  if andb (negb (is_init k1)) (andb (k_appliedSI k1) (p' <? a_pos a))
-  then match kv with KeepNow => a_pos a | KeepNoPos => e1 end       (* ZSTD_keepCallerPosition *)
+  if andb (negb (is_init k1)) (andb (k_appliedSI k1) (p' <? base))
+  then match kv with KeepNow => base | KeepNoPos => e1 end          (* ZSTD_keepCallerPosition *)
   else e1.
 
 (* ZSTD_flushStream: never refused (it presents the recorded buffer itself) *)
